@@ -40,18 +40,53 @@ def gen_case(rng, tier):
     gap = int(p.get('rx_consecutive_frame_timeout', 1000) * 10**6 * 0.45)
     if slow:
         batch = 1
+    # full duplex: the receiver transmits messages of its own meanwhile (queued before or during the reception; its own Consecutive
+    # Frames paced by the peer's STmin so that they leave in the passes in which a Flow Control is due)
+    duplex = (not slow) and len(frames) > 1 and len(frames) < 300 and rng.random() < 0.3
+    own_at = rng.randint(0, len(frames) - 1) if duplex else None
+    own_fc_at = None
+    own_len = p.get('tx_data_length', 8) + rng.choice([1, 20, 100])      # always a multi-frame message of its own
+    own_st = rng.choice([0, 1, 1, 2])
+    if duplex:
+        p.pop('default_target_address_type', None)
+        p['rx_flowcontrol_timeout'] = 1000
+        p['rx_consecutive_frame_timeout'] = 1000
     while i < len(frames):
         k = batch if batch else 1
         if slow and i > 0:
             ops.append([0, 'tick', gap])
+        if duplex and own_at is not None and i >= own_at:
+            ops.append([0, 'send', None, hx(bytes(rng.getrandbits(8) for _ in range(own_len)))])
+            own_at = None
+            own_fc_at = i + rng.choice([1, 2, 3]) * k      # after the pass that emits the own First Frame
+        if duplex and own_fc_at is not None and i >= own_fc_at and own_at is None:
+            ops.append([0, 'rx', rid, int(ext), hx(pfx + bytes([0x30, 0, own_st]))])
+            own_fc_at = None
         for f in frames[i:i + k]:
             ops.append([0, 'rx', rid, int(ext), hx(f)])
         i += k
         ops.append([0, 'proc', 1, 1])
+        if duplex:
+            ops.append([0, 'tick', rng.choice([10**6, 10**6, 2 * 10**6, 0])])
         ops.append([0, 'recv'])
     ops.append([0, 'proc', 1, 1])
     ops.append([0, 'recv'])
-    return {'insts': [inst], 'ops': ops, 'payload': hx(payload), 'nframes': len(frames), 'sender_tx_dl': tx_dl}
+    if duplex:
+        if own_fc_at is not None:
+            ops.append([0, 'rx', rid, int(ext), hx(pfx + bytes([0x30, 0, own_st]))])
+        for _ in range(own_len // 6 + 3):
+            ops.append([0, 'proc', 1, 1]); ops.append([0, 'tick', 2 * 10**6])
+    tplen = 1 if inst['txa']['mode'].startswith(('Extended', 'Mixed')) else 0
+    return {'insts': [inst], 'ops': ops, 'payload': hx(payload), 'nframes': len(frames), 'sender_tx_dl': tx_dl, 'duplex': duplex, 'tplen': tplen}
+
+
+def _is_fc_in(op, case):
+    """an incoming Flow Control (for the layer's own transmission in a full-duplex case), not a frame of the stream"""
+    if not case.get('duplex'):
+        return False
+    d = unhx(op[4])
+    _, _, pfx = reach(case['insts'][0])
+    return len(d) > len(pfx) and d[len(pfx)] >> 4 == 3
 
 
 def make_oracle(fcref):
@@ -60,7 +95,8 @@ def make_oracle(fcref):
             return []
         fails = []
         bs = case['insts'][0]['params'].get('blocksize', 8)
-        nrx = sum(1 for op in case['ops'] if op[1] == 'rx')
+        tpl = case.get('tplen', 0)
+        nrx = sum(1 for op in case['ops'] if op[1] == 'rx' and not _is_fc_in(op, case))
         if nrx != case['nframes']:
             return []          # shrinking candidate: not the full stream any more
         seen = 0
@@ -74,7 +110,9 @@ def make_oracle(fcref):
                 if e.startswith('recv:') and e != 'recv:none':
                     delivered.append((seen, e[5:]))
                 elif e.startswith('tx:'):
-                    txs.append(e[3:])
+                    d = unhx(e.split(':')[6])
+                    if not case.get('duplex') or (len(d) > tpl and d[tpl] >> 4 == 3):
+                        txs.append(e[3:])      # in a full-duplex case only the Flow Control frames belong to this reception
                 elif e.startswith('err:') or e == 'crash':
                     fails.append(('C03:error-on-wellformed-stream', e))
         if [d[1] for d in delivered] != [case['payload']]:
@@ -103,6 +141,7 @@ def run_shard(campaign, shard, nshards, seed, tier):
         part.hist('sender_tx_dl', case['sender_tx_dl'])
         part.hist('nframes', min(case['nframes'], 100) // 5 * 5)
         part.hist('blocksize', case['insts'][0]['params'].get('blocksize', 8))
+        part.hist('duplex', str(bool(case.get('duplex'))))
         lc.run_case(part, campaign, case, oracle=make_oracle(fcref), theorem=THEOREMS)
         part.sample({'inst': case['insts'][0], 'payload_len': len(case['payload']) // 2, 'nframes': case['nframes'], 'first_ops': case['ops'][:4]})
     return part.result()
